@@ -1,0 +1,7 @@
+//go:build verif
+
+package fav
+
+import "github.com/Ptt-official-app/go-pttbbs/types"
+
+func verifCrashPoint() { types.VerifCrashPoint() }
